@@ -162,7 +162,6 @@ func (f *Fetcher) getAnnounces(id interface{}) []announceData {
 }
 
 func (f *Fetcher) processNotification(notification announcesBatch, fetchTimer *time.Timer) {
-	first := len(f.fetching) == 0
 	noAnnounces := f.announces.Len() == 0
 
 	// filter only not known
@@ -200,7 +199,9 @@ func (f *Fetcher) processNotification(notification announcesBatch, fetchTimer *t
 		})
 	}
 
-	if (first && len(f.fetching) != 0) || (noAnnounces && f.announces.Len() != 0) {
+	// arm the timer only when it is not armed yet (there were no announcements before):
+	// otherwise older announcements, which are waiting for the timer, would be postponed
+	if noAnnounces && f.announces.Len() != 0 {
 		f.rescheduleFetch(fetchTimer)
 	}
 }
